@@ -189,6 +189,8 @@ func checkC04(p *core.Program, r *core.Report) {
 		"O4.2": "tables: FIPS-202 round constants (bits LSB-first) and rotation offsets; never written after initialisation",
 		"O4.3": "padded length = smallest multiple of the rate ≥ n+8, for every byte-aligned n in [0, 4·rate] and five rates (finite-domain evaluation of the SSA term)",
 		"O4.4": "padding layout: data ‖ domain bits LSB-first ‖ zeros tile [0,|P|); then exactly one update: last bit XOR 1",
+		"O4.6": "no hint / prover-chosen value in the sponge's definition code",
+		"O4.7": "imported rule: no package-level state in definition code (C12 O12.4)",
 		"O4.5": "absorb: block offsets 0, r, … < |P|; lane window P[i+64(x+5y) : +64] for x+5y < r/64; XOR (or all-zero shortcuts) into the state; one permutation per block after its lanes",
 	} {
 		r.Rule(id, t)
@@ -272,6 +274,12 @@ func checkC04(p *core.Program, r *core.Report) {
 	checkPaddingLayout(p, r, g, roles)
 	// ---- O4.5
 	checkAbsorb(p, r, ctx, g, roles)
+	// ---- O4.6: "satisfiable exactly when the output is the digest" holds against a dishonest prover only if no bit inside
+	// the gadget is prover-chosen: no hints / unconstrained decompositions anywhere in the sponge's definition code
+	checkNoHints(p, r, ctx, g, "O4.6")
+	// ---- O4.7: the gadget keeps no state between circuits (a mask or buffer kept at package level carries bits of an
+	// earlier, differently sized instance)
+	importRule(p, r, "O4.7", "C12", "O12.4", "definition code is free of package-level state")
 }
 
 // spongeRolesT is what dataflow discovers about the sponge gadget.
@@ -1192,6 +1200,7 @@ func checkAbsorb(p *core.Program, r *core.Report, ctx *circuitCtx, g *gadgetInfo
 	}
 	// guard x+5y < rate/64 on the dominator chain of the window
 	guard := false
+	guardBlocks := map[*ssa.BasicBlock]bool{}
 	if xl != nil && yl != nil {
 		for d := wb; d != nil; d = d.Idom() {
 			iff, ok := d.Instrs[len(d.Instrs)-1].(*ssa.If)
@@ -1233,11 +1242,27 @@ func checkAbsorb(p *core.Program, r *core.Report, ctx *circuitCtx, g *gadgetInfo
 			okR := rt.K == tf.KBin && rt.Name == "/" && isRecvField(rt.Args[0], ro.fBlock) && isConstInt(rt.Args[1], spongeLane)
 			if okL && okR {
 				guard = true
+				guardBlocks[d] = true
 			}
 		}
 	}
 	if !guard {
 		probs = append(probs, "the window is not guarded by x+5y < rate/64: capacity lanes would absorb message bits, or rate lanes would be skipped")
+	}
+	// nothing else decides whether a block's lanes are absorbed: inside the block loop the only conditions above the
+	// window are the loop tests and the rate guard (a "this block is padding only" flag skips the lanes of some blocks)
+	if xl != nil && yl != nil {
+		for d := wb.Idom(); d != nil && d != hdr && loopContains(hdr, d); d = d.Idom() {
+			iff, ok := d.Instrs[len(d.Instrs)-1].(*ssa.If)
+			if !ok || d == xl.Header || d == yl.Header || guardBlocks[d] {
+				continue
+			}
+			onT := d.Succs[0] == wb || d.Succs[0].Dominates(wb)
+			onF := d.Succs[1] == wb || d.Succs[1].Dominates(wb)
+			if onT != onF {
+				probs = append(probs, "the lanes of a block are absorbed only under a further condition ("+describe(ev.TermIn(iff.Cond, d))+" at "+p.Pos(condPos(iff))+")")
+			}
+		}
 	}
 	r.Check(len(probs) == 0, "O4.5", name+": lane window", p.Pos(ro.window.Pos()), "P[i+64(x+5y) : i+64(x+5y)+64] for x, y in 0..4 with x+5y < rate/64", strings.Join(probs, "; "))
 
